@@ -198,7 +198,9 @@ func cmdVerify(args []string) int {
 		}
 		sort.Strings(batch)
 		var wg sync.WaitGroup
-		sem := make(chan struct{}, 8)
+		// VC generation is sequential: go/ssa and go/types build some structures lazily and a
+		// crash here would be a false alarm; only the solver runs are parallel
+		sem := make(chan struct{}, 1)
 		for _, f := range batch {
 			f := f
 			c := cs.Funcs[f]
